@@ -242,7 +242,10 @@ pub fn oracle_c20_shape(c: &Ctor) -> Verdict {
     // and back: the original 2-D shape (for 2-D inputs of the point, multipoint, polyline, outer-first polygon families)
     let in_scope = match &sv {
         SV::Point(..) | SV::Multipoint(..) | SV::Polyline(..) => true,
-        SV::Polygon(_, _, rr) => rr.first().map(|r| r.0) == Some(Role::Outer),
+        // outer-first, and every ring has vertices (the property speaks of non-empty components; a
+        // ring without vertices becomes a geo polygon with an empty exterior, which `with_rings`
+        // refuses by panicking -- outside the claim, and reproduced by the model)
+        SV::Polygon(_, _, rr) => rr.first().map(|r| r.0) == Some(Role::Outer) && rr.iter().all(|r| !r.1.is_empty()),
         _ => false,
     };
     if c.dim() == Dim::Xy && in_scope {
